@@ -134,7 +134,8 @@ def scenario(env, sub, name, fixture, hist, preread, end, strict, ops, presigs):
                 else:
                     if r[0] == 'exc':
                         if strict: pass         # "unless the session was strict": reads need not work
-                        elif not r[2] and r[1] not in ('PicklingError',): bad = 'read-raises-%s' % r[1]
+                        elif op[3] == 'pickle': pass   # pickling problems (reference cycles) are judged in C31
+                        elif not r[2]: bad = 'read-raises-%s' % r[1]
                         elif preread and not strict and r[1] == 'DatabaseSessionIsOver' and op[3] in ('get', 'iter', 'len', 'in') \
                                 and status.get(op[1]) in ('loaded', 'updated', 'modified') and not inside_new:
                             bad = 'loaded-value-not-readable'
